@@ -10,6 +10,7 @@ import (
 )
 
 func process2(obj any, mergeFrom *Document, mergeFromDocs []*Document, ec *EvalContext, depth int) (any, error) {
+	verifStep(verifSiteProcess2)
 	depth++
 
 	if depth > 1000 {
@@ -391,6 +392,7 @@ func process2List(obj []any, mergeFrom *Document, mergeFromDocs []*Document, ec 
 }
 
 func process2String(obj string, mergeFrom *Document, mergeFromDocs []*Document, ec *EvalContext, depth int) (any, error) {
+	verifStep(verifSiteProcess2String)
 	// Interpolated values are evaluated recursively without passing through
 	// process2(), so the depth limit has to be enforced here as well.
 	if depth > 1000 {
